@@ -104,6 +104,7 @@ def elabNode (e : Env) : Nat → Nat → Option (Σ a b, Term a b)
       let t ← castT (a' := a) (b' := b) (Term.word (a := .one) (b := wordTy n) v)
       pure ⟨a, b, t⟩
     | .jet name => pure ⟨a, b, .jet (jetJF e name a b) (jetF e name a b)⟩
+    | .hidden _ => none
 
 /-! ### evaluation with failure kinds -/
 
